@@ -2158,6 +2158,9 @@ def hyp_to_affine_dist(r):
     the Klein model.
 
     """
+    # lists and tuples of distances are arrays of distances (2 * list
+    # would repeat the list instead of doubling its entries)
+    r = utils.array_like(r)
     return (np.exp(2 * r) - 1) / (1 + np.exp(2 * r))
 
 def _loxodromic_basis_change(dimension):
@@ -2176,6 +2179,8 @@ def regular_polygon_radius(n, interior_angle):
     has the given interior angle.
 
     """
+    # lists and tuples of angles are arrays of angles
+    interior_angle = utils.array_like(interior_angle)
     pi = utils.pi(like=interior_angle)
 
     alpha = interior_angle / 2
